@@ -19,6 +19,8 @@
 (*   [t |-> "cmp", left, rest]         left op1 x1 op2 x2 ...  (operands:  *)
 (*                                     [k |-> "var", n] | [k |-> "int", v] *)
 (*                                     | [k |-> "tupv", n] a tuple variable*)
+(*                                     | [k |-> "blit", v] True / False)   *)
+(*   [t |-> "opd", o]                  a bare operand used as a truth value*)
 (* Arguments of a call                                                     *)
 (*   [k |-> "lit", v] a string literal, [k |-> "name", n] a variable,      *)
 (*   [k |-> "tup", vs] a tuple whose elements are lit / name arguments     *)
@@ -50,14 +52,21 @@ ArgLits(arg, A, nested) ==
                          ELSE IF nested THEN {Err} ELSE {v.vs[i] : i \in 1..Len(v.vs)}
     [] arg.k = "tup"  -> UNION {ArgLits(arg.vs[i], A, TRUE) : i \in 1..Len(arg.vs)}
 
-Val(o, A) == CASE o.k = "int" -> o.v [] o.k = "var" -> A.int[o.n] [] o.k = "tupv" -> A.tup[o.n]
+\* Runtime values: the small integers 0..2 and the two booleans, encoded as 10 (False) and 11 (True).  A boolean
+\* IS an integer for ==, <, `in` and truthiness (Num), but not for identity: `1 is True` is false.
+BFalse == 10
+BTrue == 11
+Num(v) == IF v \in {BFalse, BTrue} THEN v - 10 ELSE v
+Truthy(v) == Num(v) # 0
+
+Val(o, A) == CASE o.k = "int" -> o.v [] o.k = "var" -> A.int[o.n] [] o.k = "tupv" -> A.tup[o.n] [] o.k = "blit" -> o.v
 
 Rel(op, x, y) ==
-  CASE op = "==" -> x = y   [] op = "!=" -> x # y
-    [] op = "<"  -> x < y   [] op = ">"  -> x > y
-    [] op = "<=" -> x <= y  [] op = ">=" -> x >= y
-    [] op = "is" -> x = y   [] op = "is not" -> x # y        \* small integers: identity coincides with equality
-    [] op = "in" -> x \in y [] op = "not in" -> x \notin y
+  CASE op = "==" -> Num(x) = Num(y)   [] op = "!=" -> Num(x) # Num(y)
+    [] op = "<"  -> Num(x) < Num(y)   [] op = ">"  -> Num(x) > Num(y)
+    [] op = "<=" -> Num(x) <= Num(y)  [] op = ">=" -> Num(x) >= Num(y)
+    [] op = "is" -> x = y   [] op = "is not" -> x # y        \* small integers and the booleans are singletons
+    [] op = "in" -> \E m \in y : Num(m) = Num(x) [] op = "not in" -> \A m \in y : Num(m) # Num(x)
 
 \* a comparison chain  a op1 b op2 c  means  (a op1 b) and (b op2 c)
 EvalCmp(e, A) ==
@@ -78,6 +87,7 @@ Eval(e, A) ==
                        ELSE IF e.op = "or" THEN (IF l = "T" THEN "T" ELSE Eval(e.r, A))     \* short circuit
                        ELSE (IF l = "F" THEN "F" ELSE Eval(e.r, A))
     [] e.t = "cmp"  -> B(EvalCmp(e, A))
+    [] e.t = "opd"  -> B(IF e.o.k = "tupv" THEN Val(e.o, A) # {} ELSE Truthy(Val(e.o, A)))
 
 (* ------------------------------------------------------- (a) combine calls *)
 IsCall(e) == e.t = "call"
@@ -134,19 +144,29 @@ Inverse(op) ==
 \* the operators the pinned code handles; for the others it builds a malformed node (the defect)
 PinnedHandles(op) == op \in {"==", "!=", "<", ">", "<=", ">="}
 
+\* report_new_comparison's special case, present in the pinned commit and in the tree (the repository's tests pin
+\* it): `not x is True` -> `not x`, `not x is False` -> `x`.  It preserves behaviour only when x holds a bool.
+IsBoolSpecial(c) == Len(c.rest) = 1 /\ c.rest[1].op = "is" /\ c.rest[1].right.k = "blit"
+BoolSpecial(c) == IF c.rest[1].right.v = BTrue THEN [t |-> "not", e |-> [t |-> "opd", o |-> c.left]]
+                  ELSE [t |-> "opd", o |-> c.left]
+
 \* leave_UnaryOperation: `not <comparison>`
+\*   "pinned"   the pinned commit;  "tree" the tree after the fix: commit (single links only, special case kept);
+\*   "repaired" the behaviour-preserving rule (single links only, no special case)
 RewriteInvert(e, vi) ==
   IF e.t = "not" /\ e.e.t = "cmp" THEN
      LET c == e.e IN
      IF vi = "pinned" THEN
         \* every link is inverted in place, whatever the chain length; unhandled operators yield garbage, modelled
         \* as the special result "malformed" (observably: an unbound name such as `yy`)
-        IF \A i \in 1..Len(c.rest) : PinnedHandles(c.rest[i].op)
+        IF IsBoolSpecial(c) THEN BoolSpecial(c)
+        ELSE IF \A i \in 1..Len(c.rest) : PinnedHandles(c.rest[i].op)
         THEN [t |-> "cmp", left |-> c.left, rest |-> [i \in 1..Len(c.rest) |-> [op |-> Inverse(c.rest[i].op), right |-> c.rest[i].right]]]
         ELSE [t |-> "malformed"]
      ELSE
-        \* repaired rule: only a single comparison is inverted (the negation of a chain is not a chain)
-        IF Len(c.rest) = 1
+        \* only a single comparison is inverted (the negation of a chain is not a chain)
+        IF vi = "tree" /\ IsBoolSpecial(c) THEN BoolSpecial(c)
+        ELSE IF Len(c.rest) = 1
         THEN [t |-> "cmp", left |-> c.left, rest |-> <<[op |-> Inverse(c.rest[1].op), right |-> c.rest[1].right]>>]
         ELSE e
   ELSE e
@@ -164,7 +184,7 @@ EnvsCallsWith(svs) ==
     int |-> [x |-> 0, y |-> 0, z |-> 0], tup |-> [t |-> {}]] : f \in [Atoms -> BOOLEAN], b \in BOOLEAN, sv \in svs}
 EnvsCalls(tupleNames) == EnvsCallsWith(StrValues(tupleNames))
 EnvsTupleNames == EnvsCallsWith({[k |-> "t", vs |-> <<"a", "b">>]})
-Dom == 0..2
+Dom == 0..2 \cup {BFalse, BTrue}
 EnvsCmp == {[atom |-> [x \in AllAtoms |-> FALSE], bool |-> [c |-> FALSE], str |-> [p |-> [k |-> "s", v |-> "a"]],
              int |-> [x |-> a, y |-> b, z |-> c], tup |-> [t |-> tv]] : a \in Dom, b \in Dom, c \in Dom, tv \in {{0}, {0, 1}, {1, 2}}}
 
